@@ -111,13 +111,13 @@ CHECKS["C03"] = ("model_checking",
     "Trusted: loopback TCP with TCP_NODELAY and pauses (the kernel may coalesce); PDU lengths up to a few hundred bytes.", "§6 C03", "framing")
 
 CHECKS["C02"] = ("model_checking",
-    "TLA+ Mutate spec over PduLayout (receive-path classification, conformant variants PS3.8 allows, systematic mutations) evaluated by TLC; every input is sent over TCP loopback to a real pynetdicom acceptor in the state where that PDU can arrive (S2C); escapes from provider/association threads, hangs, first FSM event, stability of decoded PDUs and acceptance of conformant variants are judged by the Trace_Bytes spec (C2S)",
+    "TLA+ PdataLimit spec (a received P-DATA-TF is bounded by the receiver's own Maximum Length, both roles, asymmetric announcements) and TLA+ Mutate spec over PduLayout (receive-path classification, conformant variants PS3.8 allows, systematic mutations) evaluated by TLC; every input is sent over TCP loopback to a real pynetdicom acceptor in the state where that PDU can arrive (S2C); escapes from provider/association threads, hangs, first FSM event, stability of decoded PDUs and acceptance of conformant variants are judged by the Trace_Bytes spec (C2S)",
     "Six base PDUs (two A-ASSOCIATE-RQ, P-DATA with a C-ECHO-RQ, A-RELEASE-RQ, A-ABORT, A-ASSOCIATE-RJ): truncation and extension at every offset, substitution with 0x00/0xFF and bit flip at every offset, PDU length and every top-level item length off by one / zero / huge, unknown PDU types, and the conformant variants (reserved bytes 0xFF/0x01, protocol versions 3/0xFFFF/0x8001): about 3200 inputs (1440 in quick).",
     "Trusted: loopback delivery; inputs reach Sta2 or Sta6 only; races between the received bytes and the association layer's own requests are the C05 known findings and are listed for C02 by the same event/state.", "§6 C02", "pdu")
 
 CHECKS["C30"] = ("model_checking",
     "TLA+ StorePath spec (UID values as token sequences, POSIX resolution, Inside predicate); TLC enumerates the values; each is handled by the real qrscp and storescp handle_store in a scratch tree with canaries (S2C); every created/modified path is resolved and judged by the Trace_StorePath spec (C2S)",
-    "All token sequences up to length 3 (4 thorough) over digits, '.', '..', '/', letters, backslash, optionally with an absolute prefix, as SOP Instance UID of a C-STORE handled by both applications; filesystem snapshot before/after; only files inside the storage directory or the database file may change.",
+    "All token sequences up to length 3 (4 thorough) over digits, '.', '..', '/', letters, backslash, the storage directory's own name with a suffix (a sibling), optionally with an absolute prefix, as SOP Instance UID (all) and as Modality / Patient ID / Study / Series Instance UID (hostile values; sampled in quick) of a C-STORE for a SOP class with and without a file-name prefix, handled by both applications; filesystem snapshot before/after; only files inside the storage directory or the database file may change.",
     "Trusted: handlers called directly with an event built from the encoded/decoded dataset; POSIX only.", "§6 C30", "storepath")
 
 CHECKS["C25"] = ("model_checking",
@@ -129,7 +129,7 @@ _PAIR_NOTE = ("Trusted: loopback TCP; timeouts 0.8 s; seeded delays (0-3 ms) at 
               "the pair model has one user thread per node - a second user thread on the requestor exists only in the scenario runs; the recorder orders notifications by entry into events.trigger.")
 CHECKS["C06"] = ("model_checking",
     "TLA+ Assoc spec instantiated as a requestor/acceptor pair joined by FIFO channels (user release/abort/echo, acceptor-side release/abort, accept/reject, one timeout) model-checked by TLC for "
-    "C06_OneTerminal / C06_OneFlag / C06_Agreement / C06_NoLeak on every interleaving; every counterexample is replayed on the real threads of the node concerned (S2C by projection); the user scripts of "
+    "C06_OneTerminal / C06_OneFlag / C06_Agreement / C06_NoLeak on every interleaving (the variant in which abort() and the reactor's release branch are not atomic - the code takes no lock - is refuted: the open race finding); every counterexample is replayed on the real threads of the node concerned (S2C by projection); the user scripts of "
     "Scenario.tla are run on two real AEs and the recorded notification histories / pair outcomes judged by the Trace_Notify and Trace_Pair specs (C2S)",
     "TLC: all interleavings of provider loop halves, association reactor steps and user calls of both nodes (about 540k distinct states) modulo the C05 crash signatures. Real code: 890 (quick) / 2500 (thorough) scenario runs "
     "(requestor operations x ending incl. two terminal calls in sequence x acceptor handler behaviour incl. abort/release inside a handler x second-thread abort/release on either side at three moments x rejection): "
@@ -143,9 +143,9 @@ CHECKS["C27"] = ("model_checking",
 
 CHECKS["C07"] = ("model_checking",
     "TLA+ Release spec (reactor loop and _wrap_handler loop against a peer that sends A-RELEASE-RQ at any moment) model-checked by TLC: the design as found (the handler wrapper takes the indication) is refuted, "
-    "the repaired design satisfies C07_NeverSwallowed and the liveness property C07_Answered under fairness; every (service, N, arrival point) TLC reaches is run on a real acceptor (and a real C-MOVE destination) "
+    "a release request that does not end a pending wait for a DIMSE response is refuted (C07_Answered), the repaired design satisfies C07_NeverSwallowed and the liveness property C07_Answered under fairness; every (service, N, arrival point) TLC reaches is run on a real acceptor (and a real C-MOVE destination) "
     "against a scripted raw peer (S2C) and the observation judged by the Trace_Release spec (C2S)",
-    "All arrival points: idle, inside a plain handler, before each yield and after the last one of C-FIND/C-GET/C-MOVE handlers with up to 2 (3 thorough) results, during each C-GET / C-MOVE sub-operation, "
+    "All arrival points: idle, inside a plain handler, before the preliminary yields (destination / count) of C-GET and C-MOVE handlers, before each yield and after the last one of C-FIND/C-GET/C-MOVE handlers with up to 2 (3 thorough) results, during each C-GET / C-MOVE sub-operation (with and without a DIMSE timeout), "
     "before the final response, between messages, and while a user thread of the acceptor side waits for a response with the reactor paused: A-RELEASE-RP read by the peer within 3 s, association released, threads ended.",
     "Trusted: arrival points held by stopping the handler thread until the provider has queued the indication; peer otherwise cooperative; acceptor role.", "§6 C07", "release")
 CHECKS["C08"] = ("model_checking",
